@@ -10,6 +10,7 @@ pub mod mon_c03;
 pub mod mon_c08;
 pub mod mon_c09;
 pub mod mon_c10;
+pub mod mon_c11;
 pub mod mon_recovery;
 pub mod mon_c12;
 pub mod net;
@@ -61,6 +62,22 @@ pub fn registry() -> Vec<Property> {
                packet arrived during the closing period). Distinct = distinct scenarios.",
         assumptions: &["frames are decoded by the harness's own RFC 9000 parser (wire.rs)"],
         subs: mon_c12::subs(),
+        shards: 0,
+    },
+    Property {
+        id: "C11",
+        rule: "handshake-centred scenarios: heavy drop/duplicate/delay tapes on the first 24 datagrams of each direction, clients that go silent, \
+               initial-RTT and MTU variations, plus stray datagrams (random, short header with unknown connection id, unknown version, Version \
+               Negotiation, undecryptable Initial; lengths biased to 1, 20-44, 1199-1201) sent to the server and to a client from addresses of their \
+               own; plus the exhaustive single-fault and adjacent-double-drop enumeration over the first 14 datagrams of three handshake shapes. \
+               Oracle: per-address byte ledger on the simulated wire (3x rule until the first intact client Handshake packet arrives), reply-size \
+               rules for stateless reset and Version Negotiation, client Initial datagrams >= 1200. Non-trivial: the server came within one datagram \
+               of the 3x limit, or a stray datagram elicited a reply.",
+        assumptions: &[
+            "address validation is inferred from the wire (long-header type bits are not protected); received bytes are over-counted (all copies, damaged ones included), which keeps the 3x check sound",
+            "no Retry/NEW_TOKEN in the scenarios",
+        ],
+        subs: mon_c11::subs(),
         shards: 0,
     },
     Property {
